@@ -131,11 +131,16 @@ def split_attrs(ts, start=0):
 def split_items(ts):
     """Split a top-level token list into items: an item ends with a top-level `;` or with a
     brace group (plus directly following `;`s are kept as separate empty items)."""
+    def ends(t):
+        # a macro_rules fragment (None-delimited group) ends an item if its own last token does (`$i:item`, `$b:block`)
+        if is_p(t, ";") or is_g(t, "{"):
+            return True
+        return "g" in t and t["g"] == "" and bool(t["s"]) and ends(t["s"][-1])
     items = []
     cur = []
     for t in ts:
         cur.append(t)
-        if is_p(t, ";") or is_g(t, "{"):
+        if ends(t):
             items.append(cur)
             cur = []
     if cur:
